@@ -57,7 +57,7 @@ def gen_ops(ctx):
 
 def run_oracle(ctx, hb):
     exe = core.build_harness(hb, "c18", ["c18.cpp"])
-    rc, out, err, dt = core.run_exe(exe, ["oracle"], timeout=1200)
+    rc, out, err, dt = core.run_exe(exe, ["oracle", "12" if not ctx.thorough else "36"], timeout=3000)
     fails = [l for l in out.split("\n") if l.startswith("FAIL ")]
     summary = [l for l in out.split("\n") if l.startswith("SUMMARY")]
     if rc != 0 or not summary:
@@ -146,7 +146,7 @@ def run(ctx):
         "asserts are compiled out (the baseline configuration is RelWithDebInfo = -DNDEBUG)",
     ]
     cov["evaluations"] = len(lines) + cases
-    cov["exhaustive_parts"] = "oracle: all a<=b, e in int8_t for scalar operations; all a<=b,c<=d in [-12,12] for interval pairs"
+    cov["exhaustive_parts"] = "oracle: all a<=b, e in int8_t for scalar operations; all a<=b,c<=d in [-12,12] (thorough: [-36,36]) for interval pairs"
 
 
 def replay(ctx, path):
